@@ -387,6 +387,28 @@ def c17_main():
         o.pop("case", None)
         o["tool"] = "average"
         obs.append(o)
+    # the Python binding: average_over_bed of the real extension module (anchor pybigtools/src/lib.rs)
+    try:
+        from checks.c20 import build_extension, VENV_PY
+        moddir = build_extension()
+        pin, pout = os.path.join(run.wd, "aob_in.ndjson"), os.path.join(run.wd, "aob_out.ndjson")
+        with open(pin, "w") as f:
+            for k, b in enumerate(beh[::3]):
+                bed = os.path.join(d, "aob_%d.bed" % k)
+                with open(bed, "w") as g:
+                    for i, r_ in enumerate(b["regions"], 1):
+                        g.write("%s\t%d\t%d\tr%d\tx%d\n" % (chrom_name(r_[0]), r_[1], r_[2], i, i))
+                f.write(json.dumps({"mode": "aob", "path": b["bwpath"], "bed": bed, "regions": b["regions"], "items": b["items"], "name": b["name"], "ds": b["ds"],
+                                    "minmax": 1, "threads": -1, "chroms": [chrom_name(c_) for c_ in range(1, 5)], "tool": "average"}) + "\n")
+        subprocess.run([VENV_PY, os.path.join(ROOT, "pyverif", "py_driver.py"), moddir, pin, pout], timeout=900, stdout=subprocess.PIPE, stderr=subprocess.PIPE)
+        for line in open(pout):
+            o = json.loads(line)
+            for kk in ("path", "bed", "chroms", "mode"):
+                o.pop(kk, None)
+            obs.append(o)
+        run.cov["python_average_over_bed_runs"] = len(beh[::3])
+    except ToolError:
+        raise
     lines = []
     for o in obs:
         lines.append(json.dumps(o, separators=(",", ":")))
